@@ -142,8 +142,10 @@ class PolicyTypeSurface(core.Surface):
             return [PolicyTypeSurface.kind(z) for z in v]
         if isinstance(v, bool):
             return "bool"
-        for t, n in ((ipaddress.IPv4Network, "net4"), (ipaddress.IPv6Network, "net6"), (int, "int"), (datetime.datetime, "datetime"),
-                     (bytes, "bytes"), (str, "str")):
+        for t, n in ((ipaddress.IPv4Network, "net4"), (ipaddress.IPv6Network, "net6")):
+            if isinstance(v, t):
+                return n + ":" + str(v)            # the range denoted, not only the kind
+        for t, n in ((int, "int"), (datetime.datetime, "datetime"), (bytes, "bytes"), (str, "str")):
             if isinstance(v, t):
                 return n
         return type(v).__name__
@@ -172,11 +174,20 @@ def gen_policy_typing(rng, table):
 
     def one():
         if fam == "ip":
+            # every spelling of a range (host bits set, netmask / hostmask form, a bare address, upper-case hex) is a range: it must
+            # be stored as THE network it denotes -- the stdlib (strict=False) is the oracle, not the library's own validator
+            # (audit experiment 8: strict parsing kept "10.1.2.3/16" as text, so IpAddress never matched)
             if rng.random() < 0.5:
-                a = ipaddress.IPv4Network((rng.getrandbits(32), rng.choice([0, 8, 16, 24, 32])), strict=False)
-                return str(a), "net4"
-            a = ipaddress.IPv6Network((rng.getrandbits(128), rng.choice([0, 32, 64, 128])), strict=False)
-            return rng.choice([str(a), a.exploded]), "net6"
+                addr, plen = rng.getrandbits(32), rng.choice([0, 8, 16, 24, 31, 32])
+                a = ipaddress.IPv4Network((addr, plen), strict=False)
+                host = str(ipaddress.IPv4Address(addr))
+                txt = rng.choice([str(a), host + "/" + str(plen), host + "/" + str(a.netmask), host + "/" + str(a.hostmask), host])
+                return txt, "net4:" + str(ipaddress.ip_network(txt, strict=False))
+            addr, plen = rng.getrandbits(128), rng.choice([0, 32, 64, 127, 128])
+            a = ipaddress.IPv6Network((addr, plen), strict=False)
+            host = ipaddress.IPv6Address(addr)
+            txt = rng.choice([str(a), a.exploded, str(host) + "/" + str(plen), host.exploded.upper() + "/" + str(plen), str(host)])
+            return txt, "net6:" + str(ipaddress.ip_network(txt, strict=False))
         if fam == "int":
             v = rng.choice([0, 7, -3, 2 ** 40])
             return rng.choice([v, str(v)]), "int"
